@@ -120,6 +120,8 @@ E(vp_h16d_i16_u16, (prop_parse<int16_t, char16_t, 3>(in, out) != 0)) E(vp_h16d_u
 //@ OBL {"name": "h16d_i16_u16", "prop": "vp_h16d_i16_u16", "in": 24, "out": 16, "unwind": 12, "backends": ["kissat", "default"], "cap_s": 3600, "assume": "va_n3", "bounds": "every char16_t string of length <= 2 (thorough: 3) (ALL 65536 unit values per position)", "desc": "numeric parser on UTF-16 text == reference on code units (only U+0020/U+0009 are blanks)", "cassume": ["in[0] <= 2"], "tier": "open"}
 //@ OBL {"name": "h16d_u8_u32", "prop": "vp_h16d_u8_u32", "in": 24, "out": 16, "unwind": 12, "backends": ["kissat", "default"], "cap_s": 3600, "assume": "va_n3", "bounds": "every char32_t string of length <= 2 (thorough: 3)", "desc": "numeric parser on UTF-32 text", "cassume": ["in[0] <= 2"], "tier": "open"}
 //@ OBL {"name": "h16d_i8_w", "prop": "vp_h16d_i8_w", "in": 24, "out": 16, "unwind": 12, "backends": ["kissat", "default"], "cap_s": 3600, "assume": "va_n3", "bounds": "every wchar_t string of length <= 2 (thorough: 3)", "desc": "numeric parser on wchar_t text", "cassume": ["in[0] <= 2"], "tier": "open"}
+//@ OBL {"name": "h16e_i16_u16", "prop": "vp_h16d_i16_u16", "in": 24, "out": 16, "unwind": 12, "backends": ["kissat", "default"], "cap_s": 900, "assume": "va_n3", "bounds": "every char16_t string of exactly 2 units: first unit ANY of the 65536 values, second unit any ASCII character", "desc": "numeric parser on UTF-16 text == reference on code units (only U+0020/U+0009 are blanks; a non-ASCII unit before the literal is never skipped)", "cassume": ["in[0] == 2", "in[4] == 0 && in[3] < 0x80"], "tier": "open"}
+//@ OBL {"name": "h16e_u8_u32", "prop": "vp_h16d_u8_u32", "in": 24, "out": 16, "unwind": 12, "backends": ["kissat", "default"], "cap_s": 900, "assume": "va_n3", "bounds": "every char32_t string of exactly 2 units: first unit ANY 32-bit value, second unit any ASCII character", "desc": "numeric parser on UTF-32 text == reference on code units", "cassume": ["in[0] == 2", "in[8] == 0 && in[7] == 0 && in[6] == 0 && in[5] < 0x80"], "tier": "open"}
 // literals from tests/unit_tests/convert_tests/convert_fundamentals_tests.cpp
 //@ VEC * 032d3132000000000000000000000000000000000000
 //@ VEC * 0520203132370000000000000000000000000000
